@@ -110,3 +110,7 @@ impl ToVariationCto<Group4Var3> for DoubleBitBinaryInput {
         }
     }
 }
+
+#[cfg(kani)]
+#[path = "/verif/harness/event_write_fn.rs"]
+mod verif_harness;
